@@ -109,9 +109,16 @@ def gen_ring(rng, resolved=True, kinds=None):
         # put the delay on links leaving time components, split over one to three adapters
         cands = [l for l in links if comps[l["src"]]["kind"] == "time"]
         mode = rng.choice(["one", "split", "spread", "dpush"])
+        def effective_pos(l):
+            # the consumer's request passes the adapters from the consumer side up to the first push-based
+            # adapter it meets; only positions behind the last push-based adapter (source -> consumer order)
+            # take effect on it
+            last_cache = max([i for i, a in enumerate(l["ads"]) if a[0] in CACHE], default=-1)
+            return rng.randint(last_cache + 1, len(l["ads"]))
+
         if mode == "dpush":
             l = rng.choice(cands)
-            l["ads"].insert(rng.randint(0, len(l["ads"])), ["dpush"])
+            l["ads"].insert(effective_pos(l), ["dpush"])
         else:
             extra = rng.choice([0, 0, 1, 3])
             parts = [total + extra]
@@ -121,12 +128,7 @@ def gen_ring(rng, resolved=True, kinds=None):
                 parts = [b - a for a, b in zip([0] + cuts, cuts + [total + extra])]
             for p in parts:
                 l = rng.choice(cands) if mode == "spread" else cands[0]
-                pos = rng.randint(0, len(l["ads"]))
-                # a delay adapter downstream of a push-based adapter takes effect; upstream of it it does not
-                first_cache = next((i for i, a in enumerate(l["ads"]) if a[0] in CACHE), None)
-                if first_cache is not None:
-                    pos = rng.randint(first_cache + 1, len(l["ads"]))
-                l["ads"].insert(pos, ["dfix", p])
+                l["ads"].insert(effective_pos(l), ["dfix", p])
     # chord / tail
     if n >= 3 and rng.random() < 0.3:
         comps.append({"kind": "time", "start": 0, "steps": [rng.choice([1, 2, 4])]})
@@ -224,8 +226,14 @@ def run_cases(specs, res, oracles, nontrivial=None, exclude=None):
         orders.append(o)
     models = common.lean_batch(reqs)
     out = []
+    timeouts = 0
     for s, m, o in zip(specs, models, orders):
+        if timeouts >= 3:
+            res.count("skipped_after_repeated_timeouts")
+            continue
         impl = run_impl(s)
+        if impl["error"] == "timeout":
+            timeouts += 1
         nt = (len(impl["updates"]) >= 3 and len({u for u, _t in impl["updates"]}) >= 2) if nontrivial is None else nontrivial(s, impl)
         res.case(slim(s), nt)
         res.count("components", len(s["comps"]))
